@@ -40,63 +40,66 @@ def theorem_at(lines, lineno):
     return "?"
 
 
+PROOF_FILES = ["TranslatedEq", "TranslatedUnits", "TranslatedSafe", "TranslatedUnitsSafe"]   # in import order
+
+
 def build():
-    """Build both proof files (the second one also when the first has failing theorems: Lean keeps going after an
-    error inside a file, but lake does not build importers of a failed module - so the two are compiled separately)."""
+    """Check the four proof files.  lake does not build the importers of a module that has errors, so after the normal
+    `lake build` the files are compiled one by one; a file with failing theorems is, for the sake of its importers
+    only, compiled once more from a TEMPORARY copy in which exactly the failing proofs are admitted (test harness
+    only: the copy and the object files made from it are removed again)."""
     t0 = time.time()
-    failing, other, rc = [], [], 0
-    for path, target in ((EQ, "SqlDt.Lemmas.TranslatedEq"), (SAFE, "SqlDt.Lemmas.TranslatedSafe")):
-        if not os.path.exists(path):
-            continue
-        r = subprocess.run(["lake", "build", target], cwd=LEAN, stdout=subprocess.PIPE,
-                           stderr=subprocess.STDOUT, universal_newlines=True)
-        out = r.stdout
-        if target.endswith("Safe") and rc != 0:
-            # TranslatedEq failed, so lake refuses to build its importer: compile the file directly against a
-            # temporary copy of TranslatedEq's object files from the last good build is not possible; instead
-            # compile it with `lake env lean` after forcing an .olean of TranslatedEq with errors admitted
-            out = compile_safe_despite_eq_errors(list(failing))
-        rc = rc or r.returncode
-        with open(path) as f:
-            lines = f.read().split("\n")
-        base = os.path.basename(path)
-        for m in re.finditer(r"error: (\S+?):(\d+):(\d+): (.*)", out):
-            if m.group(1).endswith(base):
-                th = theorem_at(lines, int(m.group(2)))
-                if th not in failing:
-                    failing.append(th)
-            elif not m.group(1).endswith(("TranslatedEq.lean", "TranslatedSafe.lean")):
-                other.append(m.group(0))
-    return rc, failing, other, time.time() - t0
-
-
-def compile_safe_despite_eq_errors(failing_eq=None):
-    """lake does not build the importers of a module that has errors.  To still learn which `_safe` theorems fail,
-    a TEMPORARY copy of TranslatedEq.lean with the failing proofs admitted is compiled to the module's object file,
-    TranslatedSafe.lean is checked against it, and the object file is removed again.  (Test harness only: the
-    project's own files never contain an admitted proof.)"""
+    targets = ["SqlDt.Lemmas." + f for f in PROOF_FILES if os.path.exists(os.path.join(OUT, "Lemmas", f + ".lean"))]
+    r = subprocess.run(["lake", "build"] + targets, cwd=LEAN, stdout=subprocess.PIPE, stderr=subprocess.STDOUT,
+                       universal_newlines=True)
+    if r.returncode == 0:
+        return 0, [], [], time.time() - t0
     lib = os.path.join(LEAN, ".lake", "build", "lib", "lean", "SqlDt", "Lemmas")
-    olean = os.path.join(lib, "TranslatedEq.olean")
-    with open(EQ) as f:
-        text = f.read()
-    for name in failing_eq or []:
-        text = re.sub(r"(theorem %s .*?:= by\n)(.*?)(\n\n)" % re.escape(name),
-                      lambda m: m.group(1) + "  " + "sor" + "ry" + m.group(3), text, count=1, flags=re.S)
-    tf = os.path.join(OUT, "Lemmas", "TranslatedEqTmp.lean")     # lean insists on a file inside the package root
+    subprocess.run(["lake", "build", "SqlDt.Translated", "SqlDt.Lemmas.TrAttr", "SqlDt.Lemmas.Div", "SqlDt.Lemmas.Calendar",
+                    "SqlDt.Model.Parse"], cwd=LEAN, stdout=subprocess.PIPE, stderr=subprocess.STDOUT)
+    failing, other, made = [], [], []
     try:
-        with open(tf, "w") as f:
-            f.write(text)
-        subprocess.run(["lake", "env", "lean", "-o", olean, "-i", os.path.join(lib, "TranslatedEq.ilean"), tf], cwd=LEAN,
-                       stdout=subprocess.PIPE, stderr=subprocess.STDOUT, universal_newlines=True)
-        r = subprocess.run(["lake", "env", "lean", SAFE], cwd=LEAN, stdout=subprocess.PIPE, stderr=subprocess.STDOUT,
-                           universal_newlines=True)
+        for name in PROOF_FILES:
+            path = os.path.join(OUT, "Lemmas", name + ".lean")
+            if not os.path.exists(path):
+                continue
+            olean, ilean = os.path.join(lib, name + ".olean"), os.path.join(lib, name + ".ilean")
+            had = os.path.exists(olean)
+            rr = subprocess.run(["lake", "env", "lean", "-o", olean, "-i", ilean, path], cwd=LEAN, stdout=subprocess.PIPE,
+                                stderr=subprocess.STDOUT, universal_newlines=True)
+            with open(path) as f:
+                text = f.read()
+            lines = text.split("\n")
+            bad = []
+            for m in re.finditer(r"^(\S*?):(\d+):(\d+): error", rr.stdout, flags=re.M):
+                if m.group(1).endswith(name + ".lean"):
+                    th = theorem_at(lines, int(m.group(2)))
+                    if th not in bad:
+                        bad.append(th)
+                else:
+                    other.append(m.group(0))
+            if rr.returncode != 0 and not bad:
+                other.append("%s: %s" % (name, rr.stdout[:300]))
+            failing += [b for b in bad if b not in failing]
+            if bad:
+                for b in bad:
+                    text = re.sub(r"(theorem %s .*?:= by\n)(.*?)(\n\n)" % re.escape(b),
+                                  lambda m: m.group(1) + "  " + "sor" + "ry" + m.group(3), text, count=1, flags=re.S)
+                tf = os.path.join(OUT, "Lemmas", name + "Tmp.lean")
+                with open(tf, "w") as f:
+                    f.write(text)
+                subprocess.run(["lake", "env", "lean", "-o", olean, "-i", ilean, tf], cwd=LEAN, stdout=subprocess.PIPE,
+                               stderr=subprocess.STDOUT)
+                os.remove(tf)
+            if not had or bad:
+                made += [olean, ilean]
     finally:
-        for x in (tf, olean, os.path.join(lib, "TranslatedEq.ilean")):
+        for x in made:      # never leave an object file of a failed module behind
             try:
-                os.remove(x)       # never leave an object file of a failed module behind
+                os.remove(x)
             except OSError:
                 pass
-    return re.sub(r"^(\S*TranslatedSafe\.lean:\d+:\d+: error)", r"error: \1", r.stdout, flags=re.M)
+    return 1, failing, other, time.time() - t0
 
 
 def main():
